@@ -47,24 +47,65 @@ def build(exe, rng, i):
         for nm in reversed(insub):
             if nm in sect: ops.append(f"undel 0 0 {sect[b'sub']} {sect[nm]}")
     ops += ["free 0 0", "list 0 0 1"]
+    reads = []
     for nm, kind, k in names:
-        if kind == "f": ops += [f"open 2 0 0 {hx(nm)} 1", "read 2 100000", "close 2"]
+        if kind == "f": reads += [f"open 2 0 0 {hx(nm)} 1", "read 2 100000", "close 2"]
+    ops += reads
+    # the next allocations after the undelete must not land on a block of a restored file: new entries are created, then
+    # every file is read again
+    ops += [f"open 1 0 0 {hx(b'post1')} 2", "write 1 3000 77", "close 1", f"mkdir 0 0 {hx(b'postd')}", f"open 1 0 0 {hx(b'post2')} 2", "write 1 600 78", "close 1"]
+    ops += ["@AGAIN@"] + reads
     return ops, len(pre)
+
+def dircache_spill_case(exe, dt):
+    """DIRCACHE: a directory is undeleted into a parent whose last cache block is full (17 records of 28 bytes), with the
+    directory's own old cache block the lowest free block of the volume: the parent's cache must not grow into it"""
+    hx = gen.hx
+    pre = gen.prologue(dt, clock=(2019, 9, 9, 9, 9, 9))
+    for i in range(15): pre += [f"open 1 0 0 {hx(b'a%02d' % i)} 2", "close 1"]
+    pre += [f"open 1 0 0 {hx(b'ss')} 2", "write 1 10 1", "close 1", f"mkdir 0 0 {hx(b'dd')}", "list 0 0 1"]
+    rc, cb, err = vlib.run_c(exe, pre)
+    if rc != 0: return None
+    sect = {bytes.fromhex(l.split()[3]): int(l.split()[4]) for l in cb[-1] if l.startswith("E ")}
+    if b"dd" not in sect: return None
+    return pre + [f"remove 0 0 {hx(b'ss')}", f"remove 0 0 {hx(b'dd')}", f"open 1 0 0 {hx(b'y1')} 2", "close 1", f"open 1 0 0 {hx(b'y2')} 2", "close 1",
+                  "free 0 0", f"undel 0 0 880 {sect[b'dd']}", "free 0 0", "list 0 0 1", f"chdir 0 0 {hx(b'dd')}", f"open 1 0 0 {hx(b'in')} 2", "close 1",
+                  "toroot 0 0", "usedirc 1", "list 0 0 1", "usedirc 0"]
 
 def probe(res, exe, n):
     """returns a list of (ops, complaint)"""
     bad = []
+    for dt in (5, 7):
+        ops = dircache_spill_case(exe, dt)
+        if not ops: continue
+        p = os.path.join(vlib.scratch(), f"undelspill_{dt}.img")
+        rc, cb, err = vlib.run_c(exe, ops + ["unmount 0 0", f"dumpimg 0 {p}", "closedev 0", "allocs"])
+        san = vlib.sanitizer_report(err)
+        if san or rc != 0: bad.append((ops, f"{san or 'harness exit %d' % rc} in an undelete history")); continue
+        try:
+            img = open(p, "rb").read(); os.unlink(p)
+            for e in fsck.fsck_image(img, 0, 1760).errors[:3]: bad.append((ops, "after undelete: " + e))
+        except OSError: pass
     for i in range(n):
         rng = vlib.rng_for(res.seed, f"undel/{i}")
         b = build(exe, rng, i)
         if not b: continue
         ops, npre = b
         p = os.path.join(vlib.scratch(), f"undel_{i}.img")
+        cut = ops.index("@AGAIN@"); nreads = len(ops) - cut - 1
+        ops = ops[:cut] + ops[cut + 1:]
         full = ops + ["unmount 0 0", f"dumpimg 0 {p}", "closedev 0", "allocs"]
         rc, cb, err = vlib.run_c(exe, full)
         san = vlib.sanitizer_report(err)
         if san or rc != 0: bad.append((ops, f"{san or 'harness exit %d' % rc} in an undelete history")); continue
-        before = cb[npre - 2][0]; after = cb[len(ops) - 1 - 3 * sum(1 for o in ops if o.startswith('open 2'))]
+        before = cb[npre - 2][0]
+        # the files read the same before and after the later allocations
+        npost = 7
+        first = cb[cut - npost - nreads:cut - npost]; second = cb[len(ops) - nreads:len(ops)]
+        for a_, b_, o_ in zip(first, second, ops[len(ops) - nreads:]):
+            if o_.startswith("read") and a_ and b_ and a_[0] != b_[0]:
+                bad.append((ops, f"a file restored by undelete no longer reads as before once new entries were created: {a_[0][:50]} / {b_[0][:50]} (a later write landed on one of its blocks)"))
+                break
         # every undelete that reports success must bring the free count back to what it was before the removals
         und = [j for j, o in enumerate(ops) if o.startswith("undel")]
         if und and all("rc=0" in cb[j][0] for j in und):
